@@ -144,7 +144,18 @@ def invoke(fid: str, kwargs: dict[str, Any], res: Any = None) -> Any:
     def value(o: str):
         if not ishape:
             return Term(o, args)
-        return _nested(ishape, lambda idx: Term(o, args + tuple(idx_atom(j) for j in idx)))
+        nested = _nested(ishape, lambda idx: Term(o, args + tuple(idx_atom(j) for j in idx)))
+        if fd.get("hide_ms") or len(ishape) >= 2:   # no MapSpec of its own: the whole array is ONE result, consumers index it
+            # numpy style; a block of rank >= 2 is handed over as an object ndarray as well (pipefunc indexes it with tuples)
+            import numpy as _np
+            arr = _np.empty(tuple(ishape), dtype=object)
+            for idx in _np.ndindex(*ishape):
+                x = nested
+                for j in idx:
+                    x = x[j]
+                arr[idx] = x
+            return arr
+        return nested
 
     outs = fd["outputs"]
     if fd.get("retnone"):
@@ -238,6 +249,8 @@ def make_pipefunc(fd: dict, tag: str = ""):
     # "decl_internal_shape": what PipeFunc(internal_shape=) is told (None / a WRONG shape when map(internal_shapes=) is to
     # supply or override it); "internal_shape" stays what the function really returns
     ishape = (fd["decl_internal_shape"] if "decl_internal_shape" in fd else fd.get("internal_shape")) or None
+    if fd.get("hide_ms"):        # the producer carries neither a MapSpec nor an internal shape: pipefunc generates the MapSpec
+        ishape = None            # from the consumers' MapSpecs (the description states the MapSpec that must result)
     orig_outs = list(outs)
     if fd.get("outperm") and len(outs) > 1:
         # the function is declared with the output names in reversed order and renamed position by position, so that
@@ -265,7 +278,7 @@ def make_pipefunc(fd: dict, tag: str = ""):
                   "kwargs": {p: to_json(kwargs[orig_name(_fd, p)]) for p in _fd["params"]}})
         reskw["post_execution_hook"] = hook
     pf = PipeFunc(fn, orig_outs[0] if len(outs) == 1 else tuple(orig_outs), renames=renames or None, **reskw,
-                  defaults=defaults or None, bound=bound or None, mapspec=fd.get("mapspec"),
+                  defaults=defaults or None, bound=bound or None, mapspec=None if fd.get("hide_ms") else fd.get("mapspec"),
                   internal_shape=(ishape[0] if fd.get("intshape") and len(ishape) == 1 else tuple(ishape)) if ishape else None,
                   cache=bool(fd.get("cache", False)))           # `intshape`: a rank-1 internal shape given as a plain int
     pf._pfverif_id = fid  # noqa: SLF001
